@@ -67,7 +67,7 @@ func VerifTick[T TSTable, O any](db TSDB[T, O], ts int64) string {
 	// (rotationProcessOn), keep offering the same event without blocking: the offer can only be
 	// taken while the goroutine is parked, i.e. when Tick's own send was lost, so the event is
 	// delivered exactly once.
-	deadline := time.Now().Add(3 * time.Second)
+	deadline := time.Now().Add(20 * time.Second)
 	for !d.rotationProcessOn.Load() {
 		select {
 		case d.tsEventCh <- ts:
